@@ -271,6 +271,14 @@ class SendEventResponse(StreamingResponse[ServerSentEvent]):
                     yield b": ping\n\n"
         finally:
             should_stop = True
+            # Keep draining until the relay thread has finished: its pending
+            # q.put() calls (next item, final None) must never block, otherwise
+            # waiting for the thread below would deadlock.
+            while not push_future.done():
+                try:
+                    q.get(timeout=0.01)
+                except queue.Empty:
+                    pass
             while not q.empty():
                 q.get_nowait()  # pragma: no cover
             if not push_future.cancel():
